@@ -18,6 +18,8 @@ func docLines(text string) []string {
 	for _, l := range strings.Split(text, "\n") {
 		if l == "" {
 			out = append(out, "// ")
+		} else if strings.HasPrefix(l, "//go:generate") {
+			// a directive: absent from the output like everywhere else
 		} else if !strings.HasPrefix(l, ":") {
 			out = append(out, "// "+l)
 		}
@@ -25,7 +27,7 @@ func docLines(text string) []string {
 	if text == "" {
 		return nil
 	}
-	return out
+	return out // (nil when every line was a directive or notation)
 }
 
 func hasNotation(text, n string) bool {
